@@ -114,6 +114,10 @@ FinalOK ==
 \* ---- generator output ---------------------------------------------------------
 Case == [inst |-> b.id, q |-> Q, ev |-> ev, virt |-> virt, order |-> order,
          post |-> {[a |-> q, w |-> aux.post[q]] : q \in DOMAIN aux.post}, tot |-> aux.tot,
-         map |-> aux.map]
+         map |-> aux.map,
+         \* is the moral graph of the pruned (augmented) network connected?  (belief propagation rejects the others)
+         bpconn |-> LET K == Keep(B, Q, aux.ee) IN
+                    /\ UConnected(BNodes(b), Moral(BEdges(b)))        \* the engine's own clique tree (constructor)
+                    /\ UConnected(K, Moral({e \in BEdges(B) : e[1] \in K /\ e[2] \in K}))]
 Emit == phase = "elim" /\ rem = {} => PrintT(ToJson(Case))
 =============================================================================
